@@ -160,6 +160,12 @@ def segwit(vm, n_in, n_out, items):
         return 'VIOLATION: witness-free serialisation differs from the legacy encoding'
     if tx.id != ref_txid(legacy):
         return 'VIOLATION: segwit txid is not computed over the witness-free serialisation'
+    # the library cannot emit the marker, flag and witnesses itself: the parsed object must keep the bytes it was given (they are what
+    # the wallet stores and serves), i.e. parsing followed by re-serialising is the identity on segwit encodings as well
+    if tx.raw != raw:
+        return 'VIOLATION: a parsed segwit transaction does not re-serialise to the bytes it was parsed from'
+    if tx.size != len(raw):
+        return 'VIOLATION: the size of a parsed segwit transaction is not the length of its encoding'
     return 'ok'
 
 
